@@ -16,6 +16,14 @@ Families     (besides corpus / mutation / grammar-driven errors / error paths by
                          re-prepare, nev_prepare_argc_argv or direct prog->params[]; a free()/realloc() of a host buffer by libnev
                          is a free of an unknown block for the monitor (and is withheld, reported as @@HOST), the buffers are
                          compared with copies afterwards.  Keys host-memory-freed:<function>, host-memory-written.
+             exc-site    one probe per raise site of the VM (exception_sites(): grep of `running = VM_EXCEPTION|VM_ERROR` in
+                         back/vmexec.c, back/libvm.c by enclosing function/macro; EXC_SITE_PROBES maps sites to probes) x
+                         uncaught / caught / catch-all / caught 12x in a loop / caught then normal work / other handler;
+                         coverage.run_time_exception_sites lists the sites, which allocate before a raise, which have no probe.
+             owned-token-error  the grammar-driven error positions (c05.grammar_error_cases) with every token KIND whose value is
+                         heap memory (owned_token_kinds(): scanner rules with strdup/string_take) planted as the offending
+                         token: string literal, identifier, `use` name, two of them in a row.  A lost string-literal token is
+                         keyed leak:parse-error:token:string-literal (its text without the scanner's `string` record).
              heap-sweep  allocating probe programs x EVERY heap size from 6 below the smallest one that completes to 64 above
                          (+ sizes 1, 2, 3): the only sizes at which cell mem_size-1 holds an object at vm_delete.  memdrive
                          prints the occupancy (@@HEAP) before vm_delete; coverage.heap_size_sweep shows the boundary was hit.
@@ -355,6 +363,164 @@ def error_path_cases():
 
 
 # ---------------------------------------------------------------------------------------------
+# run-time exception paths: one probe per raise site of the VM (back/vmexec.c, back/libvm.c: `running = VM_EXCEPTION /
+# VM_ERROR`), each uncaught / caught / caught by catch-all / caught 12 times in a loop / caught and followed by normal
+# work / passing a handler for another exception.  Every probe holds temporaries (strings, arrays) at the raise point.
+# (site name, exception, declarations, body of `func raise_it(n : int) -> int` that raises when n == 0 ... here: always raises)
+EXC_PRE = ("record R { v : int; s : string; n : R; }\nfunc nil_str() -> string { let strs = {[ 1 ]} : string; strs[0] }\n"
+       "func nil_arr() -> [_] : int { let aa = {[ 1 ]} : [_] : int; aa[0] }\nfunc nil_fun() -> (int) -> int { let fs = {[ 1 ]} : (int) -> int; fs[0] }\n")
+EXC_PROBES = [
+    ("int-division", "division_by_zero", "", "let t = [ \"a\", \"b\" ] : string; 10 / z"),
+    ("int-modulo", "division_by_zero", "", "let t = \"x\" + \"y\"; 10 % z"),
+    ("long-division", "division_by_zero", "", "let l = 10L / (0L + z); 1"),
+    ("float-division", "division_by_zero", "", "let f = 1.5 / (0.0 + z); 1"),
+    ("mk-array-huge-2d", "wrong_array_size", "", "let a = {[ 65536 + z, 65536 ]} : int; 1"),
+    ("mk-array-huge-3d", "wrong_array_size", "", "let a = {[ 2048, 2048 + z, 2048 ]} : int; 1"),
+    ("mk-array-huge-of-strings", "wrong_array_size", "", "let a = {[ 65536, 65536 + z ]} : string; 1"),
+    ("mk-array-zero-dim", "index_out_of_bounds", "", "let a = {[ 3, z ]} : int; 1"),
+    ("mk-array-negative-dim", "index_out_of_bounds", "", "let a = {[ z - 4 ]} : int; 1"),
+    ("array-add-size-mismatch", "wrong_array_size", "", "let a = [ 1, 2, 3 ] : int; let b = [ 1, 2 ] : int; let c = a + b; c[z]"),
+    ("array-sub-size-mismatch", "wrong_array_size", "", "let a = [ 1, 2, 3 ] : int; let b = [ 1, 2 ] : int; let c = a - b; c[z]"),
+    ("matrix-mul-size-mismatch", "wrong_array_size", "", "let a = [ [ 1, 2, 3 ], [ 4, 5, 6 ] ] : int; let b = [ [ 1, 2 ], [ 3, 4 ] ] : int; let c = a * b; c[z, z]"),
+    ("array-index-out-of-bounds", "index_out_of_bounds", "", "let a = [ 1, 2, 3 ] : int; let s = \"p\" + \"q\"; a[7 + z]"),
+    ("array-index-negative", "index_out_of_bounds", "", "let a = [ 1, 2, 3 ] : int; a[z - 1]"),
+    ("matrix-index-out-of-bounds", "index_out_of_bounds", "", "let m = {[ 2, 2 ]} : int; m[1, 5 + z]"),
+    ("string-index-out-of-bounds", "index_out_of_bounds", "", "let s = \"abc\" + \"d\"; ord(s[9 + z])"),
+    ("slice-array-out-of-bounds", "index_out_of_bounds", "", "let a = [ 1, 2, 3, 4 ] : int; let b = a[1 .. 9 + z]; b[0]"),
+    ("slice-string-out-of-bounds", "index_out_of_bounds", "", "let s = \"abcdef\"; let t = s[2 .. 40 + z]; length(t)"),
+    ("slice-of-slice-out-of-bounds", "index_out_of_bounds", "", "let a = [ 1, 2, 3, 4, 5, 6 ] : int; let b = a[1 .. 4]; let c = b[0 .. 8 + z]; c[0]"),
+    ("slice-deref-out-of-bounds", "index_out_of_bounds", "", "let a = [ 1, 2, 3, 4, 5, 6 ] : int; let b = a[1 .. 4]; b[7 + z]"),
+    ("nil-record-field", "nil_pointer", "", "var r = R(1, \"s\", nil); r = nil; r.v + z"),
+    ("nil-record-deep-field", "nil_pointer", "", "let r = R(1, \"s\" + \"t\", nil); r.n.n.v + z"),
+    ("nil-string-concat", "nil_pointer", "", "let s = nil_str(); let t = \"a\" + s; length(t) + z"),
+    ("nil-string-concat-right", "nil_pointer", "", "let s = nil_str(); let t = s + \"a\" + \"b\"; length(t) + z"),
+    ("nil-string-compare", "nil_pointer", "", "let s = nil_str(); (s == \"abc\" + \"d\") ? 1 : z"),
+    ("nil-string-length", "nil_pointer", "", "let u = \"x\" + \"y\"; length(nil_str()) + z"),
+    ("nil-string-prints", "nil_pointer", "", "let u = \"x\" + \"y\"; prints(nil_str()); z"),
+    ("nil-string-index", "nil_pointer", "", "let s = nil_str(); ord(s[z])"),
+    ("nil-string-slice", "nil_pointer", "", "let s = nil_str(); let t = s[0 .. 1]; z"),
+    ("nil-array-deref", "nil_pointer", "", "let a = nil_arr(); let s = \"k\" + \"l\"; a[z]"),
+    ("nil-array-slice", "nil_pointer", "", "let a = nil_arr(); let b = a[0 .. 1]; b[z]"),
+    ("nil-array-foreach", "nil_pointer", "", "let a = nil_arr(); var t = 0; for (x in a) { t = t + x }; t + z"),
+    ("nil-array-negate", "nil_pointer", "", "let a = nil_arr(); let b = -a; b[z]"),
+    ("nil-array-add", "nil_pointer", "", "let a = nil_arr(); let c = [ 1, 2 ] : int; let b = c + a; b[z]"),
+    ("nil-array-sub", "nil_pointer", "", "let a = nil_arr(); let c = [ 1, 2 ] : int; let b = a - c; b[z]"),
+    ("nil-array-scalar-mul", "nil_pointer", "", "let a = nil_arr(); let b = 3 * a; b[z]"),
+    ("nil-matrix-mul", "nil_pointer", "", "let aa = {[ 1 ]} : [_,_] : int; let m = aa[0]; let k = [ [ 1, 2 ] ] : int; let b = k * m; b[z, z]"),
+    ("nil-function-call", "nil_pointer", "", "let f = nil_fun(); let s = \"f\" + \"g\"; f(1 + z)"),
+    ("nil-string-assign", "nil_pointer", "", "var s = \"a\" + \"b\"; s = nil_str(); length(s) + z"),
+    ("nil-string-copy-assign", "nil_pointer", "", "var s = \"a\" + \"b\"; let n = nil_str(); s = n + \"\"; length(s) + z"),
+    ("range-foreach-deref", "index_out_of_bounds", "", "let r = [ 1 .. 5 ]; var t = 0 + z; for (i in r) { t = t + i }; let a = [ 1 ] : int; a[t]"),
+    ("sqrt-of-negative", "invalid_domain", "", "let t = \"m\" + \"n\"; let f = sqrt(0.0 - 4.0 - z); 1"),
+    ("log-of-zero", "division_by_zero", "", "let f = log(0.0 * z); 1"),
+    ("exp-overflow", "overflow", "", "let f = exp(1000.0 + z); 1"),
+    ("pow-overflow", "overflow", "", "let f = pow(10.0, 100.0 + z); 1"),
+    ("exp-underflow", "underflow", "", "let f = exp(0.0 - 1000.0 - z); 1"),
+    ("exception-in-closure", "index_out_of_bounds", "", "let a = [ 1, 2 ] : int; let f = let func (i : int) -> int { let s = \"c\" + \"d\"; a[i] }; f(9 + z)"),
+    ("exception-in-listcomp", "division_by_zero", "", "let a = [ 10 / (i - 2) | i in [ 1, 2, 3 ] : int ] : int; a[z]"),
+    ("exception-in-array-literal", "division_by_zero", "", "let a = [ \"a\" + \"b\", \"c\" + str(1 / z) ] : string; length(a[0])"),
+    ("exception-in-record-constructor", "division_by_zero", "", "let r = R(1 / z, \"s\" + \"t\", R(2, \"u\", nil)); r.v"),
+    ("exception-in-call-argument", "division_by_zero", "func three(a : string, b : int, c : string) -> int { b }\n", "three(\"a\" + \"b\", 1 / z, \"c\" + \"d\")"),
+    ("exception-rethrown-through-frames", "division_by_zero", "func lv3(d : int) -> int { let s = \"3\" + \"3\"; 1 / d }\nfunc lv2(d : int) -> int { let a = [ 1, 2 ] : int; lv3(d) + a[0] }\n", "let t = \"1\" + \"1\"; lv2(z)"),
+    ("exception-in-handler", "division_by_zero", "func inner(d : int) -> int { let a = [ 1 ] : int; a[5] } catch (index_out_of_bounds) { let s = \"h\" + \"h\"; 10 / d }\n", "inner(z)"),
+    ("assert-failed", None, "", "let a = [ 1, 2 ] : int; let s = \"a\" + \"b\"; assert(z == 1); 0"),
+    ("assertf-failed", None, "", "let s = \"a\" + \"b\"; assertf(1.0 + z, 0.5); 0"),
+]
+EXC_SHAPES = ["uncaught", "caught", "caught-by-catch-all", "caught-in-loop", "caught-then-normal-run", "caught-other-exception"]
+def exc_program(decl, body, exc, shape):
+    pre = EXC_PRE + decl
+    if exc is None or shape == "uncaught":
+        return pre + "func raise_it(z : int) -> int { %s }\nfunc main() -> int { raise_it(0) }\n" % body
+    if shape == "caught":
+        return pre + "func raise_it(z : int) -> int { %s } catch (%s) { 0 - 1 }\nfunc main() -> int { raise_it(0); 0 }\n" % (body, exc)
+    if shape == "caught-by-catch-all":
+        return pre + "func raise_it(z : int) -> int { %s } catch { 0 - 2 }\nfunc main() -> int { raise_it(0); 0 }\n" % body
+    if shape == "caught-in-loop":
+        return pre + "func raise_it(z : int) -> int { %s } catch (%s) { 0 - 1 }\nfunc main() -> int { var i = 0; var t = 0; while (i < 12) { t = t + raise_it(0); i = i + 1 }; 0 }\n" % (body, exc)
+    if shape == "caught-then-normal-run":
+        return pre + "func raise_it(z : int) -> int { %s } catch (%s) { 0 - 1 }\nfunc main() -> int { raise_it(0); let a = [ 1, 2, 3 ] : int; let s = \"after\" + \"wards\"; a[1] + length(s) }\n" % (body, exc)
+    other = "nil_pointer" if exc != "nil_pointer" else "overflow"
+    return pre + "func raise_it(z : int) -> int { %s } catch (%s) { 0 - 3 }\nfunc main() -> int { raise_it(0); 0 }\n" % (body, other)
+
+# raise sites (enclosing function or macro in the C source) -> the probes that reach them
+EXC_SITE_PROBES = {
+    "vm_execute_op_div_type": ["int-division", "long-division", "float-division"], "vm_execute_op_mod_type": ["int-modulo"],
+    "vm_execute_op_add_string": ["nil-string-concat", "nil-string-concat-right"], "vm_execute_op_add_type_string": ["nil-string-concat"],
+    "vm_execute_op_add_string_type": ["nil-string-concat-right"], "vm_execute_op_eq_string": ["nil-string-compare"],
+    "vm_execute_op_neq_string": ["nil-string-compare"], "vm_execute_op_neg_arr_type": ["nil-array-negate"],
+    "vm_execute_op_add_arr_type": ["array-add-size-mismatch", "nil-array-add"], "vm_execute_op_sub_arr_type": ["array-sub-size-mismatch", "nil-array-sub"],
+    "vm_execute_op_mul_arr_type": ["nil-array-scalar-mul"], "vm_execute_op_mul_arr_arr_type": ["matrix-mul-size-mismatch", "nil-matrix-mul"],
+    "vm_execute_op_ass_string": ["nil-string-assign", "nil-string-copy-assign"],
+    "vm_execute_mk_array_num": ["mk-array-huge-2d", "mk-array-huge-3d", "mk-array-huge-of-strings", "mk-array-zero-dim", "mk-array-negative-dim"],
+    "vm_execute_slice_array": ["nil-array-slice", "slice-array-out-of-bounds"], "vm_execute_slice_slice": ["slice-of-slice-out-of-bounds"],
+    "vm_execute_slice_string": ["slice-string-out-of-bounds", "nil-string-slice"], "vm_execute_slice_deref": ["slice-deref-out-of-bounds"],
+    "vm_execute_range_deref": ["range-foreach-deref"], "vm_execute_string_deref": ["string-index-out-of-bounds", "nil-string-index"],
+    "vm_execute_vecref_deref": ["nil-record-field"], "vm_execute_vecref_vec_deref": ["nil-record-deep-field"],
+    "vm_execute_vecref_vec_index_deref": ["array-index-out-of-bounds", "array-index-negative", "matrix-index-out-of-bounds", "nil-array-deref"],
+    "vm_execute_call": ["nil-function-call"], "vm_execute_rethrow": ["exception-rethrown-through-frames", "exception-in-handler"],
+    "vm_execute_unhandled_exception": ["int-division"],
+    "libvm_execute_build_in": ["sqrt-of-negative", "log-of-zero", "exp-overflow", "pow-overflow", "exp-underflow", "nil-string-length",
+                               "nil-string-prints", "assert-failed", "assertf-failed"],
+}
+
+
+def exception_sites(repo):
+    """grep-based list of the raise sites of the VM: enclosing function / macro -> [raise points, holds allocations before a raise?]"""
+    res = {}
+    for f in ("back/vmexec.c", "back/libvm.c"):
+        try:
+            L = open(os.path.join(repo, f)).read().split("\n")
+        except OSError:
+            continue
+        cur, start = None, 0
+        for i, l in enumerate(L):
+            m = re.match(r"^(?:static\s+)?(?:void|int|mem_ptr|char)\s*\*?\s*(\w+)\s*\(", l) or re.match(r"^#define\s+(\w+)", l)
+            if m:
+                cur, start = m.group(1), i
+            if cur and re.search(r"running\s*=\s*VM_(EXCEPTION|ERROR)", l):
+                body = "\n".join(L[start:i])
+                holds = bool(re.search(r"_new\s*\(|malloc\s*\(|calloc\s*\(|strdup|string_\w+\s*\(", body))
+                e = res.setdefault(cur, {"file": f, "raise_points": 0, "allocates_before_a_raise": False})
+                e["raise_points"] += 1
+                e["allocates_before_a_raise"] = e["allocates_before_a_raise"] or holds
+    return res
+
+
+def exception_path_cases():
+    out = []
+    for name, exc, decl, body in EXC_PROBES:
+        for shape in EXC_SHAPES:
+            if exc is None and shape != "uncaught":
+                continue
+            out.append(("V.%s.%s" % (name, shape), "exc-site:" + name, exc_program(decl, body, exc, shape),
+                        {"probe": name, "exception": exc or "assert", "shape": shape}))
+    return out
+
+
+def exception_path_matrix(cases, obs, repo):
+    sites = exception_sites(repo)
+    probes = {}
+    for c in cases:
+        if not c.cls.startswith("exc-site:"):
+            continue
+        o = obs.get(c.id)
+        e = probes.setdefault(c.meta["probe"], {"exception": c.meta["exception"], "shapes": {}})
+        v = judge(c, o)[0]
+        out = (o.out or "") if o is not None else ""
+        raised = ("unhandled %s" % c.meta["exception"] in out) or "assert failed" in out or \
+                 (c.meta["shape"] != "uncaught" and o is not None and (o.outcome or "").startswith("RESULT"))
+        e["shapes"][c.meta["shape"]] = "%s/%s" % (v, outcome_class(o) if o is not None else "no-record")
+        if c.meta["shape"] == "uncaught":
+            e["raises_the_intended_exception"] = bool(raised)
+    known = set(probes)
+    for fn, e in sites.items():
+        e["probes"] = [p for p in EXC_SITE_PROBES.get(fn, []) if p in known]
+    return {"rule": "raise sites = every `running = VM_EXCEPTION|VM_ERROR` in back/vmexec.c and back/libvm.c grouped by enclosing function "
+                    "or macro (grep); one or more probes per site x %d shapes" % len(EXC_SHAPES),
+            "sites": sites, "sites_without_probe": sorted(fn for fn, e in sites.items() if not e["probes"]), "probes": probes}
+
+
+# ---------------------------------------------------------------------------------------------
 # entry functions with parameters, run WITH arguments that the host owns.  The kinds an entry may declare
 # (front/typecheck.c func_entry_check_type; back/nev.c nev_prepare_argc_argv; back/vmexec.c vm_execute_push_param):
 # int, float, string in any mix (FUNC_ENTRY_TYPE_PARAM_LIST) or one string array (FUNC_ENTRY_TYPE_STRING_ARRAY).
@@ -418,6 +584,27 @@ HEAP_PROBES = [
     ("caught-exception", "func d(a : int) -> int { let t = [ 1, 2, 3 ] : int; t[a] } catch (index_out_of_bounds) { let u = [ 7, 8 ] : int; u[0] }\nfunc main() -> int { d(5) }"),
     ("nothing", "func main() -> int { 0 }"),
 ]
+
+
+OWNED_TOKEN_TEXT = [("string-literal", '"text"'), ("identifier", "zzz"), ("use-name", "use zzmod"), ("two-string-literals", '"one" "two"'),
+                    ("identifier-then-string", 'zzz "text"')]
+
+
+def owned_token_kinds(repo):
+    """the scanner rules whose token value is heap memory (strdup / string_take): [rule pattern, line]"""
+    out = []
+    try:
+        L = open(os.path.join(repo, "front", "scanner.l")).read().split("\n")
+    except OSError:
+        return out
+    rule = None
+    for i, l in enumerate(L):
+        if l and not l[0].isspace() and l.rstrip().endswith("{") and not l.startswith("}"):
+            rule = l.rstrip()[:-1].strip()
+        if re.search(r"str_value\s*=\s*(strdup|string_take)\s*\(", l) and rule:
+            if not out or out[-1][0] != rule:
+                out.append([rule, i + 1])
+    return out
 
 
 def measure_gc_delete_bounds(repo):
@@ -807,6 +994,11 @@ def attribute(case, o, kind, sym, parser_y):
                 return "token:" + token_role(case.data, k), frames, True
             return "token:scanner-rule:" + (c05.slug(rule, 3) if c05.slug(rule, 3) != "none" else "other"), frames, True
         if fn.startswith("string_") and any(f == "lex_scan" for f, _ in frames[1:3]):
+            # string_new makes two blocks: the `string` record and its text.  The closing quote hands the text to the token
+            # (string_take) and frees the record: a lost text WITHOUT its record is the value of a finished string-literal
+            # token dropped by the parser; with the record it is the scanner's pending buffer
+            if not pending_record_leaked(sites):
+                return "token:string-literal", frames, True
             return "scanner-string-buffer", frames, False
         if len(frames) > 1 and frames[1][0].startswith("gc_alloc"):
             return "vm-heap-object", frames, False          # an object of the VM heap that gc_delete did not release
@@ -820,6 +1012,19 @@ def attribute(case, o, kind, sym, parser_y):
         return fn, frames, False
 
     sites = sorted(o.sites, key=lambda s: s[2])
+
+    def pending_record_leaked(all_sites):
+        try:
+            src = open(os.path.join(common.REPO, "front", "strutil.c")).read().split("\n")
+        except OSError:
+            return True
+        for st in all_sites:
+            fr = sym.resolve(st[1])
+            if fr and fr[0][0] == "string_new":
+                ln = short_loc(fr[0][1])[1]
+                if 0 < ln <= len(src) and "sizeof(string)" in src[ln - 1]:
+                    return True
+        return False
     named = [(s,) + name_of(s) for s in sites[-60:]]
     root = named[-1]
     fns = []
@@ -912,12 +1117,31 @@ def build_cases(ctx, rng, workdir, scale):
     ctx.coverage["grammar_driven_syntax_errors"] = ginfo
     for nm, d in gcases:
         cases.append(MCase("Y." + nm, "grammar-error", d))
+    # the same positions with every token KIND whose value owns heap memory planted as the offending token (scanner.l: rules
+    # that set tokp->val.str_value = strdup(..) / string_take(..): identifiers, string literals, the name after `use`)
+    owned = owned_token_kinds(common.REPO)
+    oinfo = {"token_rules_with_heap_values(scanner.l)": owned, "planted": {}}
+    for kind, text in OWNED_TOKEN_TEXT:
+        try:
+            ocases, _ = c05.grammar_error_cases(common.REPO, illegal=(text,))
+        except Exception as e:
+            ocases = []
+            oinfo["error"] = str(e)[:200]
+        if " " in text and not kind.startswith("use"):
+            ocases = ocases[::3]                      # the two-token combinations: every third position
+        oinfo["planted"][kind] = {"text": text, "sentences": len(ocases)}
+        for k, (nm, d) in enumerate(ocases):
+            cases.append(MCase("O.%s.%d.%s" % (kind, k, nm.rsplit(".x", 1)[0]), "owned-token-error:" + kind, d, None, "", {"kind": kind}))
+    ctx.coverage["owned_token_syntax_errors"] = oinfo
     for nm, d in c05.enum_init_cases(rng, int(150 * scale)):
         cases.append(MCase("E." + nm, "enum-initialisers", d))
     # error paths by construct: one program per (error exit x operand type x syntactic context)
     for name, phase, fault, T, cname, src in error_path_cases():
         cases.append(MCase("X." + name, "errpath:" + phase, src.encode("latin-1"), None, "",
                            {"phase": phase, "fault": fault, "type": T, "context": cname}))
+    # run-time exception paths, one probe per raise site
+    for cid, cls, src, meta in exception_path_cases():
+        cases.append(MCase(cid, cls, src.encode(), None, "", meta))
     # entry functions with parameters, run with arguments owned by the host
     for cid, cls, src, opts, meta in entry_param_cases():
         cases.append(MCase(cid, cls, src.encode(), None, opts, meta))
@@ -1129,6 +1353,7 @@ def _run(ctx, drv, mon, workdir, t0):
             ctx.sample({"class": c.cls, "input": c.data.decode("latin-1"), "outcome": o.outcome, "events": o.events, "monitor": o.monitor})
     ctx.count(evaluations=len(cases), nontrivial=len(nontrivial))
     ctx.coverage["error_paths_by_construct"] = error_path_matrix(cases, obs)
+    ctx.coverage["run_time_exception_sites"] = exception_path_matrix(cases, obs, common.REPO)
     if not getattr(ctx, "replay", None):
         ctx.coverage["heap_size_sweep"] = heap_sweep_matrix(cases, obs, heap_info)
         ea = {}
@@ -1237,8 +1462,8 @@ def _run(ctx, drv, mon, workdir, t0):
     t_ls0 = time.time()
     lcases = [c for c in cases if not c.cls.startswith("nest-parser")]
     if not thorough:
-        lcases = [c for i, c in enumerate(lcases) if c.cls.startswith(("runtime", "kept", "use", "corpus", "ffi", "errpath:reducer", "errpath:enum", "entry-args"))
-                  or i % 4 == 0]
+        lcases = [c for i, c in enumerate(lcases) if c.cls.startswith(("runtime", "kept", "use", "corpus", "ffi", "errpath:reducer", "errpath:enum", "entry-args", "exc-site"))
+                  or (i % 4 == 0 and not c.cls.startswith("owned-token")) or i % 8 == 0]
     ls = lsan_second_opinion(ctx, lcases, workdir, timeout)
     ls_counts = {"run": len(ls), "clean": 0, "leak": 0, "asan-error": 0, "other-abnormal": 0}
     lfind = {}
